@@ -75,6 +75,12 @@ def gen_cases(seed, tier):
         buffer_resp = rnd.random() < 0.75
         abort = buffer_req and rnd.random() < 0.1
         sse = rnd.random() < 0.15
+        ctype = None
+        if rnd.random() < 0.2:
+            # the target's own spelling of the Content-Type: event streams with sloppy parameters (still streams: only the
+            # part before the first ';' counts) and near misses (not streams); the model decides from the string
+            ctype = rnd.choice(STREAM_TYPES + NEAR_MISSES)
+            sse = ctype.split(";")[0] == "text/event-stream"
         rs, ps = rnd.randint(0, 250), rnd.randint(0, 250)
         if k % 12 == 7:
             # a HEAD exchange: the target declares the resource's length (below / at / above max-response-body) and sends no
@@ -88,7 +94,7 @@ def gen_cases(seed, tier):
             "kind": "req", "buffer_req": buffer_req, "buffer_resp": buffer_resp, "maxm": maxm,
             "max_req": max_req, "max_resp": max_resp,
             "req_chunks": [c.hex() for c in chunked(body_bytes(rs, req_len))], "abort": abort,
-            "resp_status": rnd.choice([200, 200, 201, 404, 500, 302]), "sse": sse,
+            "resp_status": rnd.choice([200, 200, 201, 404, 500, 302]), "sse": sse, "ctype": ctype,
             "resp_chunks": [c.hex() for c in chunked(body_bytes(ps, resp_len))],
             "_req": [rs, req_len], "_resp": [ps, resp_len],
             # the client offers a protocol upgrade that the target declines (it answers normally): buffered and limited as usual
@@ -137,6 +143,13 @@ def big_str(bs):
     return parts[0] if len(parts) == 1 else "(" + " ++ ".join(parts) + ")"
 
 
+STREAM_TYPES = ["text/event-stream", "text/event-stream;", "text/event-stream;charset", "text/event-stream; charset=utf-8",
+                "text/event-stream; profile=app/v1", "text/event-stream; charset=utf-8; charset=UTF-8", 'text/event-stream; x="unterminated',
+                "text/event-stream;;"]
+NEAR_MISSES = ["Text/Event-Stream", "text/event-stream ; charset=utf-8", "text/event-streams", "text/event-strea", "text/plain; text/event-stream",
+               "application/json"]
+
+
 def chunks_lit(hexes):
     return list_lit([big_str(bytes.fromhex(h)) for h in hexes])
 
@@ -151,7 +164,8 @@ def case_term(c, o):
         return "CaseBuf %d %d %s %s" % (c["maxb"], c["maxm"], chunks_lit(c["chunks"]), obs)
     i = "(mkHttpIn %s %s %d %d %d %s %s %d %s %s)" % (
         bool_lit(c["buffer_req"]), bool_lit(c["buffer_resp"]), c["maxm"], c["max_req"], c["max_resp"],
-        chunks_lit(c["req_chunks"]), bool_lit(c["abort"]), c["resp_status"], bool_lit(c["sse"]),
+        chunks_lit(c["req_chunks"]), bool_lit(c["abort"]), c["resp_status"],
+        "(event_stream_of %s)" % str_lit(c["ctype"].encode()) if c.get("ctype") else bool_lit(c["sse"]),
         chunks_lit(c["resp_chunks"]))
     obs = "(mkHttpObs %d %s %s %s %s %s)" % (
         o["status"], big_str(bytes.fromhex(o["body"])), bool_lit(o["flushed"]), bool_lit(o["hit"]),
@@ -233,6 +247,9 @@ def run(tier, seed):
             "samples": [cases[0], cases[len(cases) // 2], cases[-1]],
             "correspondence": {"cases": len(cases), "disagreements": len([f for f in failing if not f[1]]),
                                "monitor_failures": len([f for f in failing if not f[2]])},
+            "content_type_spellings": {"event_streams_with_sloppy_parameters": len([c for c in cases if c.get("ctype") in STREAM_TYPES]),
+                                       "near_misses": len([c for c in cases if c.get("ctype") in NEAR_MISSES]),
+                                       "decided_by": "corr/C14corr.event_stream_of on the Content-Type string"},
             "head_exchanges": {"cases": len([c for c in cases if "head_len" in c]),
                                "declared_length_above_the_response_limit": len([c for c in cases if "head_len" in c and c["buffer_resp"]
                                                                                 and 0 < c["max_resp"] < c["head_len"]]),
